@@ -164,6 +164,14 @@ def run(tier: str, replay=None) -> int:
         chk.traces += len(full)
         allcases += full
         chk.sample({k: full[len(full) // 2][k] for k in ("A", "y", "vp", "nnls", "active")})
+    # algorithm layer: Lawson-Hanson as a state machine on the same instances (spec/NNLSAlgo.tla)
+    acfg = ("SPECIFICATION {spec}\nCONSTANTS\n  M = {M}\n  N = {N}\n  AVals = {{0,1,2}}\n  YVals = {{0,1,2}}\n  Catalogue <- NoCatalogue\nCHECK_DEADLOCK FALSE\n")
+    alg = run_tlc("NNLSAlgo", acfg.format(spec="ASpec", M=3, N=2 if tier == "quick" else 3) + "INVARIANT Agrees\nINVARIANT Bounded\nINVARIANT Feasibility\nINVARIANT NoStall\n",
+                  workers=8, timeout=3000)
+    require_actions(alg, ["Build", "Start", "Outer", "Inner"])
+    chk.add_tlc(alg, "NNLSAlgo[Lawson-Hanson, safety]")
+    live = run_tlc("NNLSAlgo", acfg.format(spec="AFairSpec", M=2, N=2) + "PROPERTY Terminates\n", workers=4, timeout=3000, coverage=False)
+    chk.add_tlc(live, "NNLSAlgo[Lawson-Hanson, liveness under weak fairness]")
     # huge / tiny data scale on a sample (exact by the scale lemma)
     for c in rng.sample(allcases, min(scale_sample, len(allcases))):
         c2 = dict(c)
